@@ -261,8 +261,7 @@ func calculateSystemConfigMerged(oldCfg configuration.SystemCfg, configMap *core
 	// merge ClusterStrategy
 	clusterMerged := DefaultSLOCfg().SystemCfgMerged.ClusterStrategy.DeepCopy()
 	if mergedCfg.ClusterStrategy != nil {
-		mergedStrategyInterface, _ := util.MergeCfg(clusterMerged, mergedCfg.ClusterStrategy)
-		clusterMerged = mergedStrategyInterface.(*slov1alpha1.SystemStrategy)
+		clusterMerged = mergeSystemStrategy(clusterMerged, mergedCfg.ClusterStrategy)
 	}
 	mergedCfg.ClusterStrategy = clusterMerged
 
@@ -270,8 +269,7 @@ func calculateSystemConfigMerged(oldCfg configuration.SystemCfg, configMap *core
 		// merge with clusterStrategy
 		clusterCfgCopy := mergedCfg.ClusterStrategy.DeepCopy()
 		if nodeStrategy.SystemStrategy != nil {
-			mergedStrategyInterface, _ := util.MergeCfg(clusterCfgCopy, nodeStrategy.SystemStrategy)
-			mergedCfg.NodeStrategies[index].SystemStrategy = mergedStrategyInterface.(*slov1alpha1.SystemStrategy)
+			mergedCfg.NodeStrategies[index].SystemStrategy = mergeSystemStrategy(clusterCfgCopy, nodeStrategy.SystemStrategy)
 		} else {
 			mergedCfg.NodeStrategies[index].SystemStrategy = clusterCfgCopy
 		}
@@ -279,6 +277,19 @@ func calculateSystemConfigMerged(oldCfg configuration.SystemCfg, configMap *core
 	}
 
 	return mergedCfg, nil
+}
+
+// mergeSystemStrategy overlays the fields set in override on base. TotalNetworkBandwidth is a
+// resource.Quantity held by value, which the JSON overlay never omits: an override that leaves it
+// unset must not reset the base value to zero.
+func mergeSystemStrategy(base, override *slov1alpha1.SystemStrategy) *slov1alpha1.SystemStrategy {
+	baseBandwidth := base.TotalNetworkBandwidth.DeepCopy()
+	mergedStrategyInterface, _ := util.MergeCfg(base, override)
+	merged := mergedStrategyInterface.(*slov1alpha1.SystemStrategy)
+	if override.TotalNetworkBandwidth.IsZero() {
+		merged.TotalNetworkBandwidth = baseBandwidth
+	}
+	return merged
 }
 
 func calculateHostAppConfigMerged(oldCfg configuration.HostApplicationCfg, configMap *corev1.ConfigMap) (configuration.HostApplicationCfg, error) {
